@@ -249,24 +249,23 @@ C17_HEADER = core.WP_HEADER.replace("Wp Search", "Wp Search Options OptionsArith
 
 
 # ---- part A: programs x option combinations -------------------------------------------------
-def part_programs(ctx):
-    quick = ctx.quick
-    N = 8
+NVALS = 8
+
+
+def select_programs(ctx):
+    """candidates accepted by Polar under default settings (their inferred types are re-fed later)"""
     n_prog = ctx.pick(12, 60)
-    setts = settings_list(quick)
     cands = list(corpus17())
-    while len(cands) < 2 * n_prog + 6:
+    while len(cands) < 2 * n_prog + 4:
         g = gen.G(ctx.rng, max_depth=ctx.rng.choice([1, 1, 2]), guard=ctx.rng.random() < 0.25, n_acc=ctx.rng.choice([0, 1, 1]))
         p = g.program()
         cands.append((p, g.goals(2)[:2], "+".join(sorted(g.features)) or "plain"))
-    # round 1: default analysis (acceptance + inferred types)
-    t1 = [{"kind": "analyze", "text": P.prog_text(p), "goals": [gen.goal_text(m) for m in goals], "nvals": N + 1,
-           "opts": {}, "timeout": 100, "all_monomials": True, "snapshots": False} for p, goals, _ in cands]
+    t1 = [{"kind": "analyze", "text": P.prog_text(p), "goals": [gen.goal_text(m) for m in goals], "nvals": NVALS + 1,
+           "opts": {}, "timeout": 60, "all_monomials": True, "snapshots": False} for p, goals, _ in cands]
     _t = _time.time()
-    r1 = lib.run_tasks(t1, timeout=100)
+    r1 = lib.run_tasks(t1, timeout=60)
     tick(ctx, "polar-default-round", _t)
-    progs = []
-    rejected = {}
+    progs, rejected = [], {}
     for (p, goals, tag), r in zip(cands, r1):
         if "error" in r or "exception" in r or "unsupported" in r.get("flat", {}) or any("exception" in g for g in r["goals"]):
             k = err_class(r) if ("error" in r or "exception" in r) else "goal-or-dump"
@@ -275,24 +274,30 @@ def part_programs(ctx):
         if len(progs) < n_prog:
             progs.append((p, goals, tag, r))
     ctx.coverage["candidates_rejected_by_default_settings"] = rejected
-    # round 2: all settings
+    return progs
+
+
+def program_tasks(ctx, progs):
     tasks, meta = [], []
     for pi, (p, goals, tag, r0) in enumerate(progs):
         inferred = source_types(r0, p)
         sup = superset(ctx.rng, inferred)
-        for s in setts:
+        for s in settings_list(ctx.quick):
             q = p if s[3] == "inf" else with_types(p, inferred if s[3] == "decl" else sup)
-            tasks.append({"kind": "analyze", "text": P.prog_text(q), "goals": [gen.goal_text(m) for m in goals], "nvals": N + 1,
-                          "opts": opts_of(s), "timeout": 120, "all_monomials": True, "snapshots": bool(s[0] and s[3] == "inf" and not s[2])})
+            tasks.append({"kind": "analyze", "text": P.prog_text(q), "goals": [gen.goal_text(m) for m in goals], "nvals": NVALS + 1,
+                          "opts": opts_of(s), "timeout": 90, "all_monomials": True, "snapshots": bool(s[0] and s[3] == "inf" and not s[2])})
             meta.append((pi, s))
-    _t = _time.time()
-    results = lib.run_tasks(tasks, timeout=120)
-    tick(ctx, "polar-all-settings", _t)
-    # oracle on the source programs
-    _t = _time.time()
-    exact = oracle.exact_moments(ctx, [(p, goals, N) for p, goals, _, _ in progs], timeout=200)
-    tick(ctx, "oracle", _t)
-    _t = _time.time()
+    return tasks, meta
+
+
+def alpha_term(term):
+    """generated names in a Coq term renamed by first occurrence (to recognise identical cases)"""
+    ren = {}
+    return re.sub(r'"(_[A-Za-z]+\d+)"', lambda m: '"%s"' % ren.setdefault(m.group(1), f"_g{len(ren)}"), term)
+
+
+def process_programs(ctx, progs, tasks, meta, results, exact, n_oracle):
+    N = NVALS
     by_prog = {}
     for (pi, s), t, r in zip(meta, tasks, results):
         by_prog.setdefault(pi, []).append((s, t, r))
@@ -313,18 +318,19 @@ def part_programs(ctx):
                 attributed[s] = (c01.attribute_to_typer(ctx, flat, r.get("original_loop_guard"))
                                  if flat and "unsupported" not in flat else False)
             return attributed[s]
+        for s, t, r in runs:
+            if "error" in r or "exception" in r:
+                k = err_class(r)
+                if is_draw_crash(r):
+                    # known defect: a crash is "does not succeed", not a changed result
+                    ctx.violation(KNOWN_DRAW_CRASH, {"program_text": t["text"], "options": t["opts"], "exception": r.get("exception")},
+                                  "cond2arithm crashes on a conditioned draw")
+                crash[k] = crash.get(k, 0) + 1
         for gi, m in enumerate(goals):
             gname = gen.goal_text(m)
             ok_runs = []
             for s, t, r in runs:
                 if "error" in r or "exception" in r:
-                    if gi == 0:
-                        k = err_class(r)
-                        if is_draw_crash(r):
-                            # known defect 11a: a crash is "does not succeed", not a changed result
-                            ctx.violation(KNOWN_DRAW_CRASH, {"program_text": t["text"], "options": t["opts"], "exception": r.get("exception")},
-                                          "cond2arithm crashes on a conditioned draw")
-                        crash[k] = crash.get(k, 0) + 1
                     continue
                 gr = r["goals"][gi]
                 if "exception" in gr:
@@ -340,7 +346,7 @@ def part_programs(ctx):
                 inst = gr["instances"][0]
                 lab = {"family": "polar-built", "mons": gr["monomials"], "A": inst.get("A"), "v": inst.get("v"),
                        "force_cyclic": s[2], "solver": gr["solver"], "point": {}, "sols": gr["sols"], "is_exact": gr["is_exact"],
-                       "program": t["text"], "goal": gname, "setting": sname(s), "prog_index": pi, "goal_index": gi}
+                       "program": t["text"], "goal": gname, "setting": sname(s), "prog_index": pi, "goal_index": gi, "part": "programs"}
                 labelled.append((lab, inst))
                 try:
                     pipe_cases.append((lab, pipeline_term(r, gr, inst)))
@@ -349,8 +355,8 @@ def part_programs(ctx):
                 if not gr["is_exact"]:
                     ctx.violation(f"exact-flag:{text}:{gname}:{sname(s)}", {"program_text": t["text"], "options": t["opts"], "goal": gname},
                                   f"E({gname}) is flagged rounded although no numeric option is set ({sname(s)})")
-            # (ii) exact values: pairwise and against the reference semantics
-            ref = [ex[n][gi] for n in range(N + 1)] if ex is not None else None
+            # exact values: pairwise, and against the reference semantics
+            ref = [ex[n][gi] for n in range(n_oracle + 1)] if ex is not None else None
             for (s1, t1_, ra, g1, v1), (s2, t2_, rb, g2, v2) in itertools.combinations(ok_runs, 2):
                 ctx.count({"t": text, "g": gname, "a": sname(s1), "b": sname(s2)}, nontrivial=len(g1["monomials"]) >= 2)
                 bad = next((n for n in range(N + 1) if v1[n] is not None and v2[n] is not None and v1[n] != v2[n]), None)
@@ -358,7 +364,7 @@ def part_programs(ctx):
                     agree_pairs += 1
                     continue
                 culprit = None
-                if ref is not None:
+                if ref is not None and bad < len(ref):
                     w1, w2 = v1[bad] != ref[bad], v2[bad] != ref[bad]
                     culprit = "both" if (w1 and w2) else ("first" if w1 else "second")
                 sig = f"options-disagree:{text}:{gname}:{sname(s1)}|{sname(s2)}"
@@ -367,79 +373,34 @@ def part_programs(ctx):
                 ctx.violation(sig, {"program_text_first": t1_["text"], "options_first": t1_["opts"], "setting_first": sname(s1),
                                     "program_text_second": t2_["text"], "options_second": t2_["opts"], "setting_second": sname(s2),
                                     "goal": gname, "n": bad, "value_first": str(v1[bad]), "value_second": str(v2[bad]),
-                                    "reference_value": str(ref[bad]) if ref else None, "wrong_side": culprit,
+                                    "reference_value": str(ref[bad]) if ref and bad < len(ref) else None, "wrong_side": culprit,
                                     "closed_form_first": g1["sols"][goal_index(g1, gname)], "closed_form_second": g2["sols"][goal_index(g2, gname)]},
                               f"E({gname}) at n={bad}: {v1[bad]} under {sname(s1)} but {v2[bad]} under {sname(s2)}"
-                              f" (exact value {ref[bad] if ref else '?'})\n{text}")
-            if len(ok_runs) >= 2 and ref is not None and all(all(v[n] is None or v[n] == ref[n] for n in range(N + 1)) for *_, v in ok_runs):
+                              f" (exact value {ref[bad] if ref and bad < len(ref) else '?'})\n{text}")
+            if ref is None:
+                crash["oracle-timeout"] = crash.get("oracle-timeout", 0) + 1
+                continue
+            wrong = [sname(s) for s, _, _, _, v in ok_runs if any(v[n] is not None and v[n] != ref[n] for n in range(n_oracle + 1))]
+            if ok_runs and len(wrong) == len(ok_runs):
+                # every setting differs from the reference semantics: not an option effect (C01's subject)
+                ctx.coverage["goals_where_all_settings_differ_from_reference"] = ctx.coverage.get("goals_where_all_settings_differ_from_reference", 0) + 1
+            elif len(ok_runs) >= 2 and not wrong:
                 ctx.sample({"program": text, "goal": f"E({gname})", "settings_succeeding": [sname(s) for s, *_ in ok_runs],
                             "closed_forms": sorted({g["sols"][goal_index(g, gname)] for _, _, _, g, _ in ok_runs}),
                             "exact_moments_n0..": [str(x) for x in ref]})
-            if ref is not None and ok_runs and all(any(v[n] is not None and v[n] != ref[n] for n in range(N + 1)) for *_, v in ok_runs):
-                # every setting differs from the reference semantics: not an option effect (C01's subject)
-                ctx.coverage["goals_where_all_settings_differ_from_reference"] = ctx.coverage.get("goals_where_all_settings_differ_from_reference", 0) + 1
-    tick(ctx, "compare+attribution", _t)
-    # (i) kernel validation of every closed form against its own system ...
-    _t = _time.time()
-    out = c04.validate_instances(ctx, labelled)
-    tick(ctx, "check_solution", _t)
-    stat = {}
-    accepted = set()
-    for rec in out:
-        lab = rec["label"]
-        stat[rec["status"]] = stat.get(rec["status"], 0) + 1
-        if rec["status"] == "unsupported":
-            continue
-        ctx.coverage["obligations"] += 1
-        if rec["status"] == "accepted":
-            ctx.coverage["discharged"] += 1
-            accepted.add((lab["prog_index"], lab["goal_index"], lab["setting"]))
-        else:
-            mm = rec["mismatch"]
-            ctx.violation(f"closed-form-vs-own-system:{lab['program']}:{lab['goal']}:{lab['setting']}",
-                          {"program_text": lab["program"], "goal": lab["goal"], "setting": lab["setting"], "system": lab, "mismatch": mm,
-                           "validator": rec["status"], "why": rec.get("why")},
-                          f"closed forms of the system of E({lab['goal']}) under {lab['setting']} do not validate against Polar's own matrix"
-                          + (f": component {mm[1]} gives {mm[2]} at n={mm[0]}, A^n v gives {mm[3]}" if mm else ""), no_input=mm is None)
-    # ... and of the system against the flat program (types, one-step exactness, initial values)
-    files = [(f"p17_{j}", core.WP_HEADER + f"Eval vm_compute in {term}.\n") for j, (_, term) in enumerate(pipe_cases)]
-    _t = _time.time()
-    pouts = lib.coq_run_many(ctx, files, timeout=240)
-    tick(ctx, "check_pipeline", _t)
-    pstat = {"pipeline-accepted": 0, "types-rejected": 0, "system-rejected": 0, "init-rejected": 0, "coq-error": 0}
-    full = {}
-    for j, (lab, _) in enumerate(pipe_cases):
-        okc, o = pouts[f"p17_{j}"]
-        bl = lib.parse_bool_list(o) if okc else None
-        key = (lab["prog_index"], lab["goal_index"], lab["setting"])
-        if not bl or len(bl) != 3:
-            pstat["coq-error"] += 1
-        elif all(bl):
-            if key in accepted:
-                pstat["pipeline-accepted"] += 1
-                full.setdefault(key[:2], []).append(lab["setting"])
-        elif not bl[0]:
-            pstat["types-rejected"] += 1     # unsound inferred types are C05's subject
-        elif not bl[1]:
-            pstat["system-rejected"] += 1
-        else:
-            pstat["init-rejected"] += 1
     ctx.coverage["pairs_agreeing_on_n<=8"] = agree_pairs
-    ctx.coverage["closed_form_validator_status"] = stat
-    ctx.coverage["pipeline_validator_status"] = pstat
     ctx.coverage["settings_success_histogram"] = combo_ok
     ctx.coverage["crash_classes"] = crash
     ctx.coverage["feature_histogram"] = feats
-    return progs, by_prog, full
+    return by_prog, labelled, pipe_cases
 
 
-# ---- model <-> code ties --------------------------------------------------------------------
-def part_ties(ctx, progs, by_prog, full):
+def tie_files(ctx, progs, by_prog):
+    """model <-> code: ConditionsToArithm (snapshots before/after the pass) and _transform_categorical (the two parses)"""
     files, info = [], []
     for pi, (p, goals, tag, r0) in enumerate(progs):
         text = P.prog_text(p)
         runs = {s: (t, r) for s, t, r in by_prog[pi]}
-        # ConditionsToArithm: snapshots before / after the pass
         for tc in (False, True):
             t, r = runs[(True, tc, False, "inf")]
             snaps = dict((n, d) for n, d in r.get("snapshots", []) or [])
@@ -464,7 +425,6 @@ def part_ties(ctx, progs, by_prog, full):
                 info.append(("cond2arithm", name, text, {"before": before, "after": after}, (pi, tc, flat_key(before), flat_key(after))))
             except core.NotModelled:
                 pass
-        # transform_categoricals: the parse with and without the option
         t0, ra = runs[(False, False, False, "inf")]
         t1, rb = runs[(False, True, False, "inf")]
         pa, pb = ra.get("parsed"), rb.get("parsed")
@@ -482,35 +442,79 @@ def part_ties(ctx, progs, by_prog, full):
                 info.append(("transform_categoricals", f"t17k_{pi}", text, {"plain": pa, "expanded": pb}, None))
             except core.NotModelled:
                 pass
-    outs = lib.coq_run_many(ctx, files, timeout=200)
-    stat = {}
-    tied = []
-    for kind, name, text, dumps, extra in info:
-        okc, o = outs[name]
+    return files, info
+
+
+def process_validation(ctx, progs, by_prog, vrecs, pipe_cases, pouts, tinfo, touts):
+    # (i) every closed form against its own system
+    stat, accepted = {}, set()
+    for rec in vrecs:
+        lab = rec["label"]
+        stat[rec["status"]] = stat.get(rec["status"], 0) + 1
+        if rec["status"] == "unsupported":
+            continue
+        ctx.coverage["obligations"] += 1
+        if rec["status"] == "accepted":
+            ctx.coverage["discharged"] += 1
+            accepted.add((lab["prog_index"], lab["goal_index"], lab["setting"]))
+        else:
+            mm = rec["mismatch"]
+            ctx.violation(f"closed-form-vs-own-system:{lab['program']}:{lab['goal']}:{lab['setting']}",
+                          {"program_text": lab["program"], "goal": lab["goal"], "setting": lab["setting"], "system": lab, "mismatch": mm,
+                           "validator": rec["status"], "why": rec.get("why")},
+                          f"closed forms of the system of E({lab['goal']}) under {lab['setting']} do not validate against Polar's own matrix"
+                          + (f": component {mm[1]} gives {mm[2]} at n={mm[0]}, A^n v gives {mm[3]}" if mm else ""), no_input=mm is None)
+    # the system against the flat program (types, one-step exactness, initial values)
+    pstat = {"pipeline-accepted": 0, "types-rejected": 0, "system-rejected": 0, "init-rejected": 0, "coq-error-or-timeout": 0}
+    full = {}
+    for lab, name in pipe_cases:
+        okc, o = pouts[name]
         bl = lib.parse_bool_list(o) if okc else None
+        key = (lab["prog_index"], lab["goal_index"], lab["setting"])
+        if not bl or len(bl) != 3:
+            pstat["coq-error-or-timeout"] += 1
+        elif all(bl):
+            if key in accepted:
+                pstat["pipeline-accepted"] += 1
+                full.setdefault(key[:2], []).append(lab["setting"])
+        elif not bl[0]:
+            pstat["types-rejected"] += 1     # unsound inferred types are C05's subject
+        elif not bl[1]:
+            pstat["system-rejected"] += 1
+        else:
+            pstat["init-rejected"] += 1
+    ctx.coverage["closed_form_validator_status"] = stat
+    ctx.coverage["pipeline_validator_status"] = pstat
+    # model <-> code
+    tstat, tied = {}, []
+    for kind, name, text, dumps, extra in tinfo:
+        okc, o = touts[name]
+        bl = lib.parse_bool_list(o) if okc else None
+        if bl is None:
+            # the kernel did not finish within the time limit (large arithmetised polynomials): undecided, not counted
+            tstat[kind + ":undecided(timeout)"] = tstat.get(kind + ":undecided(timeout)", 0) + 1
+            continue
         ctx.coverage["obligations"] += 1
         if bl and all(bl):
             ctx.coverage["discharged"] += 1
-            stat[kind + ":model=code"] = stat.get(kind + ":model=code", 0) + 1
+            tstat[kind + ":model=code"] = tstat.get(kind + ":model=code", 0) + 1
             if extra:
                 tied.append(extra)
             continue
-        stat[kind + ":differs"] = stat.get(kind + ":differs", 0) + 1
+        tstat[kind + ":differs"] = tstat.get(kind + ":differs", 0) + 1
         ctx.violation(f"model-vs-code:{kind}:{text}", {"program_text": text, "pass": kind, "dumps": dumps, "coq": (o or "")[-800:]},
                       f"the output of the real {kind} pass is not what its Coq model (for which preservation is proved) produces "
                       f"on this program\n{text}", no_input=True)
-    ctx.coverage["model_code_ties"] = stat
-    # pairs of settings whose agreement at EVERY n is an instance of the theorems: both closed forms
-    # validated by check_pipeline against their flat programs, and the flat programs are the same
-    # (explicit_types_same_moments / solvers_agree) or related by the validated cond2arithm tie
-    # (cond2arithm_same_closed_forms)
+    ctx.coverage["model_code_ties"] = tstat
+    # pairs of settings whose agreement at EVERY n is an instance of the theorems: both closed forms validated by
+    # check_pipeline against their flat programs, and the flat programs are the same (explicit_types_same_moments /
+    # solvers_agree) or related by the validated cond2arithm tie (cond2arithm_same_closed_forms)
     same_fp, via_c2a = 0, 0
     for pi, (p, goals, tag, r0) in enumerate(progs):
         keys = {sname(s_): flat_key(r_.get("flat", {})) for s_, t_, r_ in by_prog[pi] if "flat" in r_ and "unsupported" not in r_["flat"]}
         links = {(b, a) for (pj, tc, b, a) in tied if pj == pi and a and b}
         for gi in range(len(goals)):
-            names = full.get((pi, gi), [])
-            for n1, n2 in itertools.combinations(names, 2):
+            for n1, n2 in itertools.combinations(full.get((pi, gi), []), 2):
                 k1, k2 = keys.get(n1), keys.get(n2)
                 if k1 is None or k2 is None:
                     continue
@@ -525,19 +529,20 @@ def part_ties(ctx, progs, by_prog, full):
 
 
 # ---- part B: numeric root options -----------------------------------------------------------
-def nonreal_roots(A):
-    M = sp.Matrix([[sp.Rational(x) for x in r] for r in A])
-    x = sp.Symbol("x")
-    cp = sp.Poly(M.charpoly(x).as_expr(), x)
-    return cp.degree() - sum(m for _, m in sp.Poly(cp, x).real_roots(multiple=False)) if cp.degree() > 0 else 0
-
-
-def max_factor_degree(A):
+def charpoly(A):
     k = len(A)
     M = sp.Matrix([[sp.Rational(x) for x in r[:k]] for r in A])
     x = sp.Symbol("x")
-    cp = sp.Poly(M.charpoly(x).as_expr(), x)
-    return max([f.degree() for f, _ in cp.factor_list()[1]] + [0])
+    return sp.Poly(M.charpoly(x).as_expr(), x)
+
+
+def nonreal_roots(A):
+    cp = charpoly(A)
+    return cp.degree() - cp.count_roots() if cp.degree() > 0 else 0
+
+
+def max_factor_degree(A):
+    return max([f.degree() for f, _ in charpoly(A).factor_list()[1]] + [0])
 
 
 def numeric_systems(ctx, count):
@@ -552,9 +557,11 @@ def numeric_systems(ctx, count):
     return out
 
 
-def part_numeric(ctx):
-    NV = 16
-    syss = numeric_systems(ctx, ctx.pick(14, 60))
+NUM_NV = 16
+
+
+def numeric_tasks(ctx):
+    syss = numeric_systems(ctx, ctx.pick(12, 60))
     optss = [{"numeric_roots": True}, {"numeric_croots": True}, {"numeric_roots": True, "numeric_eps": 1e-4}, {}]
     tasks, meta = [], []
     for fam, t in syss:
@@ -562,10 +569,14 @@ def part_numeric(ctx):
             if not o and max_factor_degree(t["A"]) >= 3:
                 continue        # sympy's exact CRootOf arithmetic does not terminate in reasonable time
             tt = dict(t)
-            tt.update({"kind": "solve", "force_cyclic": True, "opts": o, "nvals": NV, "timeout": 60})
+            tt.update({"kind": "solve", "force_cyclic": True, "opts": o, "nvals": NUM_NV, "timeout": 60})
             tasks.append(tt)
             meta.append((fam, t, o))
-    res = lib.run_tasks(tasks, timeout=60)
+    return tasks, meta
+
+
+def process_numeric(ctx, meta, res):
+    NV = NUM_NV
     hist, errs = {}, {}
     labelled = []
     for (fam, t, o), r in zip(meta, res):
@@ -597,39 +608,44 @@ def part_numeric(ctx):
         hist[oname] = hist.get(oname, 0) + 1
         base = {"system": {"A": t["A"], "v": t["v"]}, "options": o, "is_exact": r["is_exact"], "closed_forms": r["sols"]}
         nonreal = nonreal_roots(A) if o.get("numeric_roots") else 0
+        if r["is_exact"] and exact_vals:
+            # an exact-flagged result must validate exactly, for all n (kernel)
+            lab = {"family": fam, "mons": t["mons"], "A": t["A"], "v": t["v"], "force_cyclic": True, "solver": r["solver"], "point": {},
+                   "sols": r["sols"], "is_exact": True, "options": oname, "part": "numeric"}
+            labelled.append((lab, inst))
+            continue
         ctx.coverage["obligations"] += 1
-        okk = True
-        if r["is_exact"] and not exact_vals:
-            okk = False
+        bad = False
+        if r["is_exact"]:
+            bad = True
             mm = c04.first_mismatch(inst) or (None, None, None, None)
             sig = KNOWN_NONREAL if nonreal else f"exact-flag-after-rounding:{t['A']}:{t['v']}:{oname}"
-            ctx.violation(sig, dict(base, n=mm[0], component=mm[1], polar_value=mm[2], true_value=mm[3], nonreal_roots=nonreal),
-                          f"solution of A={t['A']} v={t['v']} with {oname} is reported as exact but component {mm[1]} is {mm[2]} at n={mm[0]}, "
-                          f"A^n v gives {mm[3]}")
-        if worst is not None and not (r["is_exact"] and nonreal):
-            okk = False
+            new = ctx.violation(sig, dict(base, n=mm[0], component=mm[1], polar_value=mm[2], true_value=mm[3], nonreal_roots=nonreal),
+                                f"solution of A={t['A']} v={t['v']} with {oname} is reported as exact but component {mm[1]} is {mm[2]} at n={mm[0]}, "
+                                f"A^n v gives {mm[3]}")
+        elif worst is not None:
+            bad = True
             sig = KNOWN_NONREAL if nonreal else f"numeric-tolerance:{t['A']}:{t['v']}:{oname}"
-            ctx.violation(sig, dict(base, n=worst[1], component=worst[2], polar_value=worst[3], true_value=worst[4], tolerance=worst[5],
-                                    nonreal_roots=nonreal),
-                          f"solution of A={t['A']} v={t['v']} with {oname}: component {worst[2]} at n={worst[1]} is {worst[3]}, A^n v gives {worst[4]} "
-                          f"(tolerance {worst[5]:.3g} derived from numeric_eps={eps})")
-        if not o and not r["is_exact"]:
-            okk = False
-            ctx.violation(f"exact-flag:{t['A']}:{t['v']}", base, f"exact solve of A={t['A']} flagged rounded")
-        if r["is_exact"] and exact_vals:
-            lab = {"family": fam, "mons": t["mons"], "A": t["A"], "v": t["v"], "force_cyclic": True, "solver": r["solver"], "point": {},
-                   "sols": r["sols"], "is_exact": True, "options": oname}
-            labelled.append((lab, inst))
-            ctx.coverage["obligations"] -= 1      # counted below through the validator
-        elif okk or (nonreal and not okk):
-            ctx.coverage["discharged"] += 1
-            if okk:
-                ctx.sample({"system": {"A": t["A"], "v": t["v"]}, "options": oname, "is_exact": r["is_exact"],
-                            "closed_form_component_0": r["sols"][0][:160], "within_tolerance": True}, limit=9)
-    # an exact-flagged result must validate exactly (all n)
-    out = c04.validate_instances(ctx, labelled)
+            new = ctx.violation(sig, dict(base, n=worst[1], component=worst[2], polar_value=worst[3], true_value=worst[4], tolerance=worst[5],
+                                          nonreal_roots=nonreal),
+                                f"solution of A={t['A']} v={t['v']} with {oname}: component {worst[2]} at n={worst[1]} is {worst[3]}, A^n v gives "
+                                f"{worst[4]} (tolerance {worst[5]:.3g} derived from numeric_eps={eps})")
+        elif not (o.get("numeric_roots") or o.get("numeric_croots")):
+            bad = True
+            new = ctx.violation(f"exact-flag:{t['A']}:{t['v']}", base, f"exact solve of A={t['A']} v={t['v']} is flagged rounded")
+        if not bad or not new:
+            ctx.coverage["discharged"] += 1     # decided: within tolerance and flagged rounded, or a known finding
+        if not bad:
+            ctx.sample({"system": {"A": t["A"], "v": t["v"]}, "options": oname, "is_exact": r["is_exact"],
+                        "closed_form_component_0": r["sols"][0][:160], "within_tolerance_n<16": True}, limit=9)
+    ctx.coverage["numeric_option_histogram"] = hist
+    ctx.coverage["numeric_solver_errors"] = errs
+    return labelled
+
+
+def process_numeric_validation(ctx, vrecs):
     vstat = {}
-    for rec in out:
+    for rec in vrecs:
         lab = rec["label"]
         vstat[rec["status"]] = vstat.get(rec["status"], 0) + 1
         if rec["status"] == "unsupported":
@@ -641,8 +657,6 @@ def part_numeric(ctx):
             ctx.violation(f"exact-flag-not-validated:{lab['A']}:{lab['v']}:{lab['options']}", {"system": lab, "validator": rec["status"], "why": rec.get("why")},
                           f"solution of A={lab['A']} v={lab['v']} with {lab['options']} is flagged exact and agrees for n < 16 but is rejected by check_solution",
                           no_input=True)
-    ctx.coverage["numeric_option_histogram"] = hist
-    ctx.coverage["numeric_solver_errors"] = errs
     ctx.coverage["numeric_exact_flag_validator_status"] = vstat
 
 
@@ -650,47 +664,54 @@ def part_numeric(ctx):
 FUNC_TEXT = """f = 0
 x = 0
 y = 1
+z = 0
 while true:
     f = Bernoulli(1/2)
     x = Normal(0,1)
     if f == 1:
         y = Exp(x)
     end
+    z = z + y
 end
 """
+CLI_SETS = [[], ["--cond2arithm"], ["--transform_categoricals"], ["--cond2arithm", "--transform_categoricals"],
+            ["--numeric_roots"], ["--numeric_croots", "--numeric_eps", "0.001"], ["--type_fp_iterations", "7", "--exact_func_moments"]]
 
 
-def part_known_and_cli(ctx, progs):
+def known_and_cli_tasks(ctx, progs):
     tasks = [{"kind": "analyze", "text": FUNC_TEXT, "goals": ["y"], "nvals": 4, "all_monomials": False,
               "opts": {"cond2arithm": c, "exact_func_moments": False}, "timeout": 90} for c in (False, True)]
-    # CLI: flags -> settings -> printed result
-    cli_sets = [[], ["--cond2arithm"], ["--transform_categoricals"], ["--cond2arithm", "--transform_categoricals"],
-                ["--numeric_roots"], ["--numeric_croots", "--numeric_eps", "0.001"], ["--type_fp_iterations", "7", "--exact_func_moments"]]
     cli_progs = [pr for pr in progs if "conditioned-draw" not in pr[2]][:ctx.pick(3, 8)]
     cmeta = []
     for p, goals, tag, r0 in cli_progs:
-        for fl in cli_sets:
-            tasks.append({"kind": "options_cli", "text": P.prog_text(p), "goals": [gen.goal_text(m) for m in goals], "flags": fl, "timeout": 120})
+        for fl in CLI_SETS:
+            tasks.append({"kind": "options_cli", "text": P.prog_text(p), "goals": [gen.goal_text(m) for m in goals], "flags": fl, "timeout": 90})
             cmeta.append((p, goals, fl, r0))
-    res = lib.run_tasks(tasks, timeout=120)
+    return tasks, cmeta
+
+
+def process_known_and_cli(ctx, cmeta, res):
     ra, rb = res[0], res[1]
     try:
         va = ra["goals"][0]["instances"][0]["values"]
         vb = rb["goals"][0]["instances"][0]["values"]
         flat_b = rb.get("flat_text", "")
-        if va != vb and "Exp" not in flat_b:
-            ctx.violation(KNOWN_FUNC_DROP, {"program_text": FUNC_TEXT, "goal": "y", "n": 1, "value_default": va[1][0], "value_cond2arithm": vb[1][0],
-                                            "closed_form_default": ra["goals"][0]["sols"], "closed_form_cond2arithm": rb["goals"][0]["sols"],
-                                            "flat_program_cond2arithm": flat_b},
-                          "cond2arithm drops the conditioned assignment y = Exp(x): E(y) changes")
-        elif va != vb:
-            ctx.violation("cond2arithm:functional:" + FUNC_TEXT, {"program_text": FUNC_TEXT, "default": va, "cond2arithm": vb},
-                          f"E(y) differs between default and cond2arithm on a conditioned functional assignment: {va[1][0]} vs {vb[1][0]}")
         ctx.coverage["functional_assignment_exhibit"] = {"default": ra["goals"][0]["sols"], "cond2arithm": rb["goals"][0]["sols"]}
+        ctx.coverage["obligations"] += 1
+        if va != vb:
+            sig = KNOWN_FUNC_DROP if "Exp" not in flat_b else "cond2arithm:functional:" + FUNC_TEXT
+            new = ctx.violation(sig, {"program_text": FUNC_TEXT, "goal": "y", "n": 1, "value_default": va[1][0], "value_cond2arithm": vb[1][0],
+                                      "closed_form_default": ra["goals"][0]["sols"], "closed_form_cond2arithm": rb["goals"][0]["sols"],
+                                      "flat_program_cond2arithm": flat_b},
+                                f"E(y) at n=1 is {va[1][0]} by default and {vb[1][0]} with cond2arithm (conditioned y = Exp(x))")
+            if not new:
+                ctx.coverage["discharged"] += 1
+        else:
+            ctx.coverage["discharged"] += 1
     except (KeyError, IndexError, TypeError):
-        ctx.coverage["functional_assignment_exhibit"] = {"default": err_class(ra) if ("error" in ra or "exception" in ra) else "goal failed",
-                                                         "cond2arithm": err_class(rb) if ("error" in rb or "exception" in rb) else "goal failed"}
-    # CLI
+        ctx.coverage["functional_assignment_exhibit"] = {
+            "default": err_class(ra) if ("error" in ra or "exception" in ra) else str([g.get("exception") for g in ra.get("goals", [])]),
+            "cond2arithm": err_class(rb) if ("error" in rb or "exception" in rb) else str([g.get("exception") for g in rb.get("goals", [])])}
     n_sym = sp.Symbol("n", integer=True)
     cstat = {}
     for (p, goals, fl, r0), r in zip(cmeta, res[2:]):
@@ -713,6 +734,7 @@ def part_known_and_cli(ctx, progs):
             cstat[key + ":" + r["exception"]["etype"]] = cstat.get(key + ":" + r["exception"]["etype"], 0) + 1
             ctx.coverage["discharged"] += 1
             continue
+        numeric = any(f in fl for f in ("--numeric_roots", "--numeric_croots"))
         bad = None
         for gi, (m, pr) in enumerate(zip(goals, r.get("printed", []))):
             gr = r0["goals"][gi]
@@ -723,25 +745,29 @@ def part_known_and_cli(ctx, progs):
                 specials = [sp.sympify(x) for x in parts[:-1]]
             except Exception:
                 continue
-            numeric = any(f in fl for f in ("--numeric_roots", "--numeric_croots"))
             for n in range(len(ref)):
-                val = specials[n] if n < len(specials) else general.subs(n_sym, n)
-                val = sp.nsimplify(sp.simplify(val)) if not numeric else val
                 if ref[n] is None:
                     continue
-                if numeric and not pr["exact"]:
-                    if abs(complex(sp.N(val)) - complex(ref[n])) > 1e-3 * (n + 1) ** 2 * max(1, abs(float(ref[n]))):
-                        bad = (gi, n, str(val), str(ref[n]))
-                elif sp.Rational(ref[n].numerator, ref[n].denominator) != val:
-                    bad = (gi, n, str(val), str(ref[n]))
+                val = specials[n] if n < len(specials) else general.subs(n_sym, n)
+                if pr["exact"] or not numeric:
+                    if sp.simplify(val - sp.Rational(ref[n].numerator, ref[n].denominator)) != 0:
+                        bad = (gi, n, str(val), str(ref[n]), pr["exact"])
+                elif abs(complex(sp.N(val)) - complex(ref[n])) > 1e-2 * (n + 1) ** 2 * max(1, abs(float(ref[n]))):
+                    bad = (gi, n, str(val), str(ref[n]), pr["exact"])
                 if bad:
                     break
             if bad:
                 break
         if bad:
-            ctx.violation(f"cli-result:{text}:{key}", {"program_text": text, "flags": fl, "goal": gen.goal_text(goals[bad[0]]), "n": bad[1],
-                                                       "printed_value": bad[2], "api_default_value": bad[3], "printed": r.get("printed")},
-                          f"polar.py {key} prints E({gen.goal_text(goals[bad[0]])}) with value {bad[2]} at n={bad[1]}, default settings give {bad[3]}")
+            A0 = r0["goals"][bad[0]]["instances"][0]["A"]
+            sig = KNOWN_NONREAL if ("--numeric_roots" in fl and nonreal_roots(A0)) else f"cli-result:{text}:{key}"
+            new = ctx.violation(sig, {"program_text": text, "flags": fl, "goal": gen.goal_text(goals[bad[0]]), "n": bad[1],
+                                      "printed_value": bad[2], "api_default_value": bad[3], "printed_as_exact": bad[4], "printed": r.get("printed")},
+                                f"polar.py {key} prints E({gen.goal_text(goals[bad[0]])}) with value {bad[2]} at n={bad[1]} "
+                                f"({'exact' if bad[4] else 'rounded'}), default settings give {bad[3]}")
+            if not new:
+                ctx.coverage["discharged"] += 1
+                cstat[key + ":known-finding"] = cstat.get(key + ":known-finding", 0) + 1
         else:
             ctx.coverage["discharged"] += 1
             cstat[key + ":ok"] = cstat.get(key + ":ok", 0) + 1
@@ -749,33 +775,62 @@ def part_known_and_cli(ctx, progs):
 
 
 def run(ctx):
+    import threading
     ok, log = lib.coq_check_props(ctx)
     if not ok:
         ctx.violation("proof-broken", {"theorem": "props/C17.v", "log": log[-3000:]}, "props/C17.v no longer checks", no_input=True)
         return
     lib.coq_make(["theories/Search.vo", "theories/OptionsThm.vo"])
-    import time
-    ph = {}
-    t0 = time.time()
-    progs, by_prog, full = part_programs(ctx)
-    ph["programs"] = round(time.time() - t0, 1)
-    t0 = time.time()
-    part_ties(ctx, progs, by_prog, full)
-    ph["ties"] = round(time.time() - t0, 1)
-    t0 = time.time()
-    part_numeric(ctx)
-    ph["numeric"] = round(time.time() - t0, 1)
-    t0 = time.time()
-    part_known_and_cli(ctx, progs)
-    ph["known+cli"] = round(time.time() - t0, 1)
-    ctx.coverage["phase_seconds"] = ph
+    progs = select_programs(ctx)
+    n_oracle = ctx.pick(5, 7)
+    # all Polar work in one batch, the exact oracle (Coq) concurrently
+    ptasks, pmeta = program_tasks(ctx, progs)
+    ntasks, nmeta = numeric_tasks(ctx)
+    ktasks, kmeta = known_and_cli_tasks(ctx, progs)
+    box = {}
+
+    def polar():
+        _t = _time.time()
+        box["res"] = lib.run_tasks(ptasks + ntasks + ktasks, timeout=90)
+        tick(ctx, "polar-all-settings+numeric+cli", _t)
+    th = threading.Thread(target=polar)
+    th.start()
+    _t = _time.time()
+    exact = oracle.exact_moments(ctx, [(p, goals, n_oracle) for p, goals, _, _ in progs], timeout=ctx.pick(75, 300))
+    tick(ctx, "oracle", _t)
+    th.join()
+    res = box["res"]
+    pres, nres, kres = res[:len(ptasks)], res[len(ptasks):len(ptasks) + len(ntasks)], res[len(ptasks) + len(ntasks):]
+    _t = _time.time()
+    by_prog, labelled, pipe_cases = process_programs(ctx, progs, ptasks, pmeta, pres, exact, n_oracle)
+    nlabelled = process_numeric(ctx, nmeta, nres)
+    process_known_and_cli(ctx, kmeta, kres)
+    tick(ctx, "compare", _t)
+    # Coq: check_solution for everything, then check_pipeline cases (deduplicated) and the model/code ties in one batch
+    _t = _time.time()
+    vrecs = c04.validate_instances(ctx, labelled + nlabelled)
+    tick(ctx, "check_solution", _t)
+    seen, files, named = {}, [], []
+    for lab, term in pipe_cases:
+        k = alpha_term(term)
+        if k not in seen:
+            seen[k] = f"p17_{len(seen)}"
+            files.append((seen[k], core.WP_HEADER + f"Eval vm_compute in {term}.\n"))
+        named.append((lab, seen[k]))
+    tfiles, tinfo = tie_files(ctx, progs, by_prog)
+    _t = _time.time()
+    outs = lib.coq_run_many(ctx, files + tfiles, timeout=ctx.pick(40, 240), jobs=14)
+    tick(ctx, "check_pipeline+ties", _t)
+    ctx.coverage["pipeline_cases_distinct"] = len(files)
+    process_validation(ctx, progs, by_prog, [r for r in vrecs if r["label"].get("part") == "programs"], named, outs, tinfo, outs)
+    process_numeric_validation(ctx, [r for r in vrecs if r["label"].get("part") == "numeric"])
     ctx.coverage["rule"] = ("source programs from harness/gen.py (finite variables, accumulators, guards, nested if/elif/else, 2-4 way choices, draws) "
                             "plus a corpus (three-way choices, self-referencing alternatives, complex / irrational eigenvalues, conditioned draw, guard), "
                             "kept when Polar's default settings accept them; each analysed under "
                             f"{len(settings_list(ctx.quick))} settings = 8 combinations of cond2arithm x transform_categoricals x force_cyclic with inferred types "
                             "+ declared (= inferred) and declared-superset types; one evaluation = one pair of settings under which the same goal "
-                            "succeeded, compared exactly for n <= 8 (and with the exact moments of the source program); plus linear systems with "
-                            "irrational / complex roots under numeric_roots / numeric_croots / numeric_eps; non-trivial = system with >= 2 monomials; "
+                            f"succeeded, compared exactly for n <= {NVALS} (and with the exact moments of the source program for n <= {n_oracle}); plus linear systems "
+                            "with irrational / complex roots under numeric_roots / numeric_croots / numeric_eps; non-trivial = system with >= 2 monomials; "
                             "distinct by (program text, goal, settings pair) resp. (A, v, options)")
     ctx.coverage["trusted_base"] += [
         "harness/progast.py printers (one AST printed as Polar text and as a Coq term), harness/tasks_core.py structural dumps of Polar's programs / types / systems",
@@ -784,9 +839,11 @@ def run(ctx):
     ]
     ctx.assumptions += [
         "programs and systems are sampled; per instance the validators give 'for all n' (closed form = A^n v; with check_pipeline: = exact moments of the flat program), "
-        "pairs of settings with different flat programs are additionally compared for n <= 8 against each other and the source semantics",
+        f"pairs of settings with different flat programs are additionally compared for n <= {NVALS} against each other and for n <= {n_oracle} with the source semantics",
         "the conditioned-draw branch of the cond2arithm model cannot be tied to the code: the real pass raises AttributeError there (known finding); "
         "the theorem covers the evident intent (fresh u = D; x = [C]u + [not C]default)",
+        "transform_categoricals: the theorem is about the source statement; the normalisation passes applied afterwards are C02's subject "
+        "(those pairs are validated per flat program and compared on n <= 8)",
         "numeric options: the tolerance 100*eps*(n+1)^2*max(1,|value|) for n <= 15 is a validation bound, not a theorem",
         "finite discrete programs (continuous draws enter the theorems through cmom_ok)",
     ]
